@@ -54,7 +54,9 @@ def main():
     try:
         for c in checks:
             t0 = time.time()
-            rc, out = sh(f"./check {c} --tier {a.tier}", cwd=ROOT, timeout=7200)
+            ev = os.path.join(ROOT, ".work", "evidence_seeded")
+            os.makedirs(ev, exist_ok=True)
+            rc, out = sh(f"./check {c} --tier {a.tier}", cwd=ROOT, timeout=7200, env=dict(os.environ, VERIF_EVIDENCE_DIR=ev))
             lines = [l for l in out.splitlines() if l.startswith("VIOLATION") or l.startswith("KNOWN-FINDING") or l.startswith("INFRA") or l.startswith("[C")]
             caught[c] = dict(rc=rc, seconds=round(time.time() - t0, 1), lines=[l[:300] for l in lines][:8])
             rep = [l.split("replay=")[1].split()[0] for l in lines if l.startswith("VIOLATION") and "replay=" in l]
